@@ -10,6 +10,7 @@ func init() {
 	vHarnesses["VerifH_C09_encoding"] = VerifH_C09_encoding
 	vHarnesses["VerifH_C09_keys"] = VerifH_C09_keys
 	vHarnesses["VerifH_C09_history"] = VerifH_C09_history
+	vHarnesses["VerifH_C09_reregister"] = VerifH_C09_reregister
 }
 
 // VerifH_C09_encoding: the number/string term encoding is loss-free, and for
@@ -243,4 +244,123 @@ func VerifH_C09_history() {
 		}
 		vAssert("C09.hist.string-term-counts-total", total == uint64(nStr))
 	}
+}
+
+// VerifH_C09_reregister: histories in which the indexed field itself comes and
+// goes (RemoveField, AddField again) between document writes, observed either
+// after every step or only once at the end (a query may repair state that a
+// later query would otherwise expose, so both are explored). Values come from a
+// two-element universe so that a term is shared, dropped and re-created.
+func VerifH_C09_reregister() {
+	D := vParam("D", 4)
+	kv := vNewKV()
+	idx := NewIndex(kv)
+	idx.AddField("f.x")
+	registered := true
+	type doc struct {
+		id      string
+		indexed bool
+		isNum   bool
+	}
+	docs := []*doc{{id: "d1"}, {id: "d2"}}
+	everyStep := vChoice("observe", 2) == 1
+	observe := func() {
+		wantNum, wantStr := 0, 0
+		for _, o := range docs {
+			if o.indexed && o.isNum {
+				wantNum++
+			}
+			if o.indexed && !o.isNum {
+				wantStr++
+			}
+		}
+		// term listing
+		nNum, nStr, other := 0, 0, 0
+		for t := range idx.FieldTerms("f.x") {
+			switch v := t.(type) {
+			case float64:
+				if v == 1.5 {
+					nNum++
+				} else {
+					other++
+				}
+			case string:
+				if v == "p" {
+					nStr++
+				} else {
+					other++
+				}
+			default:
+				other++
+			}
+		}
+		vAssert("C09.rereg.terms", other == 0 && (nNum == 1) == (wantNum > 0) && (nStr == 1) == (wantStr > 0) && nNum <= 1 && nStr <= 1)
+		// per-term counts
+		cNum, cStr := uint64(0), uint64(0)
+		for tc := range idx.FieldTermCounts("f.x") {
+			if tc.String == "p" {
+				cStr += tc.Count
+			} else if tc.Number == 1.5 {
+				cNum += tc.Count
+			} else {
+				other++
+			}
+		}
+		vAssert("C09.rereg.term-counts", other == 0 && cNum == uint64(wantNum) && cStr == uint64(wantStr))
+		// term match
+		var wn, ws []string
+		for _, o := range docs {
+			if o.indexed && o.isNum {
+				wn = append(wn, o.id)
+			}
+			if o.indexed && !o.isNum {
+				ws = append(ws, o.id)
+			}
+		}
+		vAssert("C09.rereg.term-match", c09SetEq(c09Match(idx, "f.x", 1.5), wn) && c09SetEq(c09Match(idx, "f.x", "p"), ws))
+	}
+	for s := 0; s < D; s++ {
+		name := "s" + string(rune('0'+s))
+		d := docs[vChoice(name+".doc", 2)]
+		switch vChoice(name+".op", 4) {
+		case 0: // AddDoc of a document that is not indexed at the moment (replacement is a listed finding of the history harness)
+			if d.indexed {
+				return
+			}
+			if vChoice(name+".kind", 2) == 0 {
+				idx.AddDoc(d.id, map[string]interface{}{"f": map[string]interface{}{"x": 1.5}})
+				d.isNum = true
+			} else {
+				idx.AddDoc(d.id, map[string]interface{}{"f": map[string]interface{}{"x": "p"}})
+				d.isNum = false
+			}
+			d.indexed = registered
+		case 1:
+			if !d.indexed {
+				return
+			}
+			idx.RemoveDoc(d.id)
+			d.indexed = false
+		case 2:
+			if !registered {
+				return
+			}
+			idx.RemoveField("f.x")
+			registered = false
+			for _, o := range docs {
+				o.indexed = false
+			}
+		default:
+			if registered {
+				return
+			}
+			idx.AddField("f.x")
+			registered = true
+		}
+		if everyStep {
+			observe()
+		}
+	}
+	vReach("c09.rereg.end")
+	observe()
 }
